@@ -33,15 +33,30 @@ TRANSPARENT = re.compile(
 
 
 def norm_path(p):
-    """Strip generic-argument segments so tables can name `ZoneWriter::write_all`."""
+    """Strip generic-argument lists so tables can name `ZoneWriter::write_all` or
+    `<FieldSelector as ZoneSelector>::select_for_segment` (keeps qualified-self `<T as Trait>` brackets)."""
     if p is None:
         return None
-    out, depth, i = [], 0, 0
-    # remove ::<...> groups (balanced)
-    while i < len(p):
-        if p.startswith("::<", i):
-            j, d = i + 2, 0
-            while j < len(p):
+    c = _NORM_CACHE.get(p)
+    if c is not None:
+        return c
+    out = []
+    i, n = 0, len(p)
+    while i < n:
+        ch = p[i]
+        strip = False
+        if ch == "<":
+            prev = p[i - 1] if i > 0 else ""
+            if p.startswith("::<", i - 2) and i >= 2:
+                strip = True
+                # drop the '::' already emitted
+                if out[-2:] == [":", ":"]:
+                    out = out[:-2]
+            elif prev.isalnum() or prev == "_":
+                strip = True
+        if strip:
+            d, j = 0, i
+            while j < n:
                 if p[j] == "<":
                     d += 1
                 elif p[j] == ">" and p[j - 1] != "-":
@@ -51,9 +66,14 @@ def norm_path(p):
                 j += 1
             i = j + 1
             continue
-        out.append(p[i])
+        out.append(ch)
         i += 1
-    return "".join(out)
+    r = "".join(out)
+    _NORM_CACHE[p] = r
+    return r
+
+
+_NORM_CACHE = {}
 
 
 class Call:
